@@ -9,8 +9,11 @@ B2 = r'\(const RCP<const Basic> &lhs, const RCP<const Basic> &rhs\)'
 
 def units(tier):
     rel = [Piece(LG, r'RCP<const Boolean> %s%s' % (f, B2), rules=G.TOK) for f in ('Eq', 'Ne', 'Le', 'Ge', 'Lt', 'Gt')]
+    LN = lambda c: Piece(LG, r'RCP<const Boolean> %s::logical_not\(\) const' % c,
+                         rules=[R('RCP<const Boolean> %s::logical_not() const' % c, 'RCPBasic Basic::logical_not_%s() const' % c, n=1, why="every stub class is the one ghost struct: member of class %s -> distinctly named member" % c)] + G.TOK)
+    rel += [LN(c) for c in ('Equality', 'Unequality', 'LessThan', 'StrictLessThan')]
     b = "full domain of the ghost model: every kind pair, ghost values 2*value in [-1000,1000] (bounded only to keep v-w in int range)"
-    ents = [Entry('h_order_numbers', timeout=600, bounds=b, mem_gb=6, unwind=4), Entry('h_eq_ne', timeout=600, bounds=b, mem_gb=6, unwind=4), Entry('h_order_any', timeout=600, bounds=b, mem_gb=6, unwind=4)]
+    ents = [Entry('h_order_numbers', timeout=600, bounds=b, mem_gb=6, unwind=4), Entry('h_eq_ne', timeout=600, bounds=b, mem_gb=6, unwind=4), Entry('h_order_any', timeout=600, bounds=b, mem_gb=6, unwind=4), Entry('h_logical_not', timeout=300, bounds=b, unwind=4)]
     u = Unit('relationals', 'C29', 'contracts/C29/rel.cpp',
              {'infty_inline.inc': G.infty_inline_pieces(), 'free.inc': G.common_free_pieces(), 'rel.inc': G.infty_pred_pieces() + rel},
              ents, route='F', trusted=G.TRUSTED + ["Basic::__cmp__ is a strict total order consistent with eq (property C02, assumed here)"],
